@@ -44,9 +44,10 @@ type Clock struct {
 
 // Step is one entry of a task script (C09).
 type Step struct {
-	U    *int `json:"u,omitempty"`    // run universe[u] and compare with the oracle
-	Pub  *Pub `json:"pub,omitempty"`  // construct universe[u] and publish it in slot
-	Read *Pub `json:"read,omitempty"` // read accessors of slot; universe[u] is the matching "sub" op
+	U     *int   `json:"u,omitempty"`     // run universe[u] and compare with the oracle
+	Pub   *Pub   `json:"pub,omitempty"`   // construct universe[u] and publish it in slot
+	Read  *Pub   `json:"read,omitempty"`  // read accessors of slot; universe[u] is the matching "sub" op
+	Clock *int64 `json:"clock,omitempty"` // advance the simulated wall clock by this many seconds (fault clock_jump)
 	// Fault marks a step that the generator inserted as a fault (invalid input, evictor); informational
 	Fault string `json:"fault,omitempty"`
 }
